@@ -151,7 +151,12 @@ class BSet(AbsVal):
             return BSet(("F",))
         if name == "np.where" and args and args[0] is self:
             return Masked(self.f, args[1])
+        if name == "np.where" and args and isinstance(args[0], Opaque) and all(isinstance(x, BSet) for x in args[1:3]):
+            return BSet(("where", args[0].key, args[1].f, args[2].f))  # a whole-design selection between two sets
         return NotImplemented
+
+    def av_compare(self, op, other, reflected):
+        return BSet(("cmp", op, self.f, getattr(other, "f", other)))
 
 
 class _Flat(AbsVal):
@@ -201,6 +206,16 @@ class Opaque(AbsVal):
     def av_compare(self, op, other, reflected):
         return Opaque(("cmp", op, self.key, getattr(other, "key", other)))
 
+    def av_binop(self, op, other, reflected):
+        if op in ("bitand", "and", "bitor", "or"):
+            return Opaque((op, self.key, getattr(other, "key", other)))
+        raise AnalysisError(f"opaque predicate {op}")
+
+    def av_ext(self, name, args, kwargs, interp=None):
+        if name == "np.where" and len(args) >= 3 and all(isinstance(x, BSet) for x in args[1:3]):
+            return BSet(("where", self.key, args[1].f, args[2].f))
+        return NotImplemented
+
     def av_truth(self):
         raise AnalysisError("an opaque predicate is used as a Python condition")
 
@@ -221,6 +236,9 @@ class Val(AbsVal):
             return BSet(("F",))
         return NotImplemented
 
+    def av_compare(self, op, other, reflected):
+        return BSet(("atom", f"design {'-' if self.sign < 0 else ''}{op} {other!r}"))  # a thresholded copy of the design
+
     def __repr__(self):
         return f"<design x {self.sign}>"
 
@@ -231,7 +249,7 @@ def _generator_paths(ctx):
     g = C.lookup_method("_generator")
     ctx.unit(g.where())
     it = ctx.fresh_interp()
-    stub_repo_calls(it, {"dilate_jax": lambda it_, a, k: BSet(Dil((a[0] if a else k["image"]).f))})
+    stub_repo_calls(it, {"dilate_jax": lambda it_, a, k: BSet(Dil((a[0] if a else k["image"]).f)), "erode_jax": lambda it_, a, k: BSet(("erode", (a[0] if a else k["image"]).f))})
     loop = {}
 
     def while_loop(it_, a, k):
@@ -399,7 +417,44 @@ def _dilation_and_brush(ctx):
 BUILTIN_BOOL = "bool"
 
 
+def _call_budget(ctx):
+    """BrushConstraint2D.__call__: the generator is run to completion for every position of the flat axis — no step
+    budget, or one that is at least the number of pixels whichever axis is the flat one."""
+    ix = ctx.index
+    C = ix.cls(Q)
+    m = C.lookup_method("__call__")
+    ctx.unit(m.where())
+    H, W = 5, 7
+    rows = {}
+    for axis in range(3):
+        shape = [H, W]
+        shape.insert(axis, 1)
+        it = ctx.fresh_interp()
+        seen = {}
+
+        def gen(it_, a, k, _s=seen):
+            _s["kwargs"] = dict(k)
+            _s["extra"] = list(a[2:])
+            return Val()
+
+        stub_repo_calls(it, {"_generator": gen, "get_background_material_name": lambda it_, a, k: "air", "compute_ordered_names": lambda it_, a, k: ["air", "si"], "straight_through_estimator": lambda it_, a, k: a[1]})
+        it.ext_overrides["np.take"] = lambda it_, a, k: Val()
+        it.ext_overrides["np.expand_dims"] = lambda it_, a, k: a[0]
+        it.ext_overrides["np.asarray"] = lambda it_, a, k: a[0]
+        arr = Obj(None, {"shape": tuple(shape)}, "param")
+        obj = Obj(C, dict(axis=axis, background_material=None, _materials={"air": 1, "si": 2}, brush=Obj(None, {}, "brush")), "bc")
+        try:
+            it.call_method(obj, "__call__", {"p": arr})
+        except Raised as r:
+            raise AnalysisError(f"BrushConstraint2D.__call__ raises on a design flat along axis {axis}: {r}")
+        budgets = [v for k_, v in seen.get("kwargs", {}).items() if "step" in k_ or "iter" in k_] + seen.get("extra", [])
+        rows[axis] = [None if b is None else int(to_rat(b).const_value()) for b in budgets]
+    bad = {a: b for a, b in rows.items() if any(x is not None and x < H * W for x in b)}
+    ctx.ob("R25.4", f"{Q}.__call__:generator-budget", not bad and len(rows) == 3, f"for a {H}x{W} design flat along axis 0, 1 or 2 alike the generator gets no step budget below the number of pixels ({H * W}) — a loop cut off early leaves uncovered pixels as void that no brush placement explains", rows, "None or >= H*W for every axis")
+
+
 def run(ctx):
+    _call_budget(ctx)
     _generator_paths(ctx)
     _dilation_and_brush(ctx)
     ctx.require_count("C25", len(ctx.obligations), 10)
